@@ -1,12 +1,61 @@
 /-
-  CmdDM.lean — driver commands (stub; owned by the group that builds the corresponding model).
+  CmdDM.lean — driver commands for the density-matrix / noise models (C17, C06).
+  Matrices travel as `n=<size> re=<q,q,…> im=<q,q,…>` (row-major, each `q` = `num/den` or `num`);
+  replies carry `m=<re,im;re,im;…>`.
 -/
+import GraphiqModel.Model.DMSem
 import Driver.Proto
+import Driver.CmdTab
 namespace Graphiq.CmdDM
-open Graphiq Graphiq.Proto
+open Graphiq Graphiq.Proto Graphiq.DM
+
+def parseRat (s : String) : Rat :=
+  match splitChar '/' s with
+  | [a] => ((a.toInt?.getD 0 : Int) : Rat)
+  | [a, b] => mkRat (a.toInt?.getD 0) (b.toNat?.getD 1)
+  | _ => 0
+
+def ratsOf (s : String) : List Rat :=
+  if s = "" ∨ s = "-" then [] else (splitChar ',' s).map parseRat
+
+def showRats (l : List Rat) : String :=
+  if l.isEmpty then "-" else String.intercalate "," (l.map toString)
+
+def matOf (a : Args) (pfx : String := "") : Mat :=
+  let n := getNat a (pfx ++ "n")
+  let re := (ratsOf (get a (pfx ++ "re"))).toArray
+  let im := (ratsOf (get a (pfx ++ "im"))).toArray
+  Mat.ofRows n (Array.ofFn (n := n) fun i => Array.ofFn (n := n) fun j =>
+    (⟨re.getD (i.val * n + j.val) 0, im.getD (i.val * n + j.val) 0⟩ : GQ))
+
+def showMat (m : Mat) : String := s!"n={m.n} m={m.toStr}"
+
+def showFid : FidOut → String
+  | .val f => s!"ok val={f}"
+  | .uhlmann => "ok uhlmann"
+
+def ptrace (a : Args) (old : Bool) : String :=
+  let ρ := matOf a
+  let keep := natsOf ',' (get a "keep")
+  let dims := natsOf ',' (get a "dims")
+  if old then s!"ok {showMat (partialTraceOld ρ keep dims).norm}"
+  else match partialTrace ρ keep dims with
+    | .ok m => s!"ok {showMat m.norm}"
+    | .error e => s!"err {e}"
+
+def fid (a : Args) : String :=
+  let ρ := matOf a "a"
+  let σ := matOf a "b"
+  let info := s!"purea={b01 (isPure ρ)} pureb={b01 (isPure σ)} dma={b01 (isDensityMatrix ρ)} dmb={b01 (isDensityMatrix σ)} ov={(ρ.mul σ).trace.re} pura={(ρ.mul ρ).trace.re} purb={(σ.mul σ).trace.re}"
+  match fidelity ρ σ with
+  | .ok f => s!"{showFid f} {info}"
+  | .error e => s!"err {e} {info}"
 
 def dispatch (cmd : String) (a : Args) : Option String :=
   match cmd with
+  | "dm.ptrace" => some (ptrace a false)
+  | "dm.ptrace_old" => some (ptrace a true)
+  | "dm.fidelity" => some (fid a)
   | _ => none
 
 end Graphiq.CmdDM
